@@ -133,6 +133,12 @@ def run(R):
     R.floor("C05-R5", "iterations over rule components", nit, 10)
 
     # ---- R6 delta feeds every premise position / every rule
+    R.rule("C05-R8", "parallel joins see their whole input: the rayon pipelines of the shared rule join and of the parallel strategy range "
+                     "over the complete triple / binding collections (no hand-made batches, no truncating adaptor)")
+    from lib import pipeline as _P
+    _P.check_parallel_coverage(R, "C05-R8", [b for b in prog.bodies.values() if b.crate in ("shared", "datalog") and "::tests::" not in b.key
+                                              and (b.file.endswith("join_algorithm.rs") or "/materialisation/" in b.file or b.file.endswith("reasoning.rs"))],
+                               whole_call_prefixes=("datalog::", "shared::"), floor=3, what="rayon pipelines in the rule join / parallel strategy")
     R.rule("C05-R7", "match-or-bind is the last word on a binding row: after a premise position was matched against (or bound in) a row by "
                      "a match-or-bind helper, nothing overwrites entries of that row before it is emitted - a plain insert after the "
                      "test can replace the very value the test just accepted (repeated variable across positions)")
